@@ -658,7 +658,22 @@ class Gen:
         if "aggregate" in self.allow:
             s, kind = self.numseq(e, scope, d - 1)
             self.q.feat.add("aggregate")
-            return f"{s}.Aggregate({'0' if kind == 'i' else '0.0'}, lambda acc, v: acc + v*2)", kind
+            pick = self.r.random()
+            if pick < 0.5:
+                seed = '0' if kind == 'i' else '0.0'
+            elif pick < 0.75:
+                # a negative literal is not a constant node (unary minus of a constant) - it is still just the starting value
+                seed = self.r.choice(['-1', '-3'] if kind == 'i' else ['-1.5', '-10.0', '-1'])
+                self.q.feat.add("aggregate_negative_seed")
+            elif obj is not None or scope:
+                # the starting value is a number of the enclosing object: computed before the loop, once per outer object
+                o = obj if obj is not None else scope[-1]
+                seed = f"{o}.{self.r.choice(self.u.dbl_methods)}()"
+                kind = "d"
+                self.q.feat.add("aggregate_outer_seed")
+            else:
+                seed = self.r.choice(['1', '2'] if kind == 'i' else ['1.5', '2.0'])
+            return f"{s}.Aggregate({seed}, lambda acc, v: acc + v*2)", kind
         a, ka = self.scalar(e, scope, d - 1, obj)
         return f"(-{a})", ka
 
@@ -910,6 +925,11 @@ SEQ_GRAFTS = {
     "agg_extra_arg": "{s}.Aggregate(0, lambda a, b: a + b, 1)",
 }
 PRED_GRAFTS = {
+    # an unsupported construct BEHIND a literal that decides the and / or: Python would not evaluate it, the translator still
+    # has to translate (and so refuse) it
+    "cmp_chain_after_true": "{a} > 1 or True or (0 < {a} < 10)",
+    "unknown_function_after_false": "{a} > 1 and False and frobnicate({a}) > 1",
+    "cmp_in_after_false": "False and ({a} in {b})",
     "cmp_chain": "0 < {a} < 10",
     "cmp_in": "{a} in {b}",
     "cmp_is": "{a} is {b}",
